@@ -15,7 +15,7 @@ from vf import core
 from vf.ref import units as U
 
 ID = 'C12'
-N = {'quick': 20000, 'thorough': 400000}
+N = {'quick': 150000, 'thorough': 2000000}
 EXHAUSTIVE = True
 NT_RULE = ('directed cases enumerate type_dict exhaustively: per quantity type all ordered pairs and '
            'triples (T1-T3), per unit all cross-type partners (T4), per unit its SI definition (T5), '
